@@ -16,6 +16,7 @@ struct CellSnap { unsigned id; bool is_static; double mass; size_t live; std::ve
 struct W1 {
     const Plan& pl; RunResult& res; bool monitors;
     std::unique_ptr<sim_solver> S; Tissue T;
+    bool may_interact = false;                    // some pair of cells came within contact range of each other (bounding spheres)
     std::vector<uint64_t> iter_hash;              // order-independent population hash per iteration
     std::vector<CellSnap> snap; double t_before = 0; std::set<std::pair<int,int>> multi_pointed;
     std::set<unsigned> ever_ids, removed_ids, overridden; unsigned max_id_seen = 0;
@@ -264,6 +265,8 @@ struct W1 {
                     iters_done++; res.sim_time += T.params.time_step_;
                     { bool blown = false; for (auto& c : S->cells()) if (c->get_nb_of_nodes() > 5000) blown = true; if (blown) { res.probes.hit("blown_up_stop"); stop = true; break; } }
                     iter_hash.push_back(pop_hash());
+                    if (pl.geti("diff", 0) && !may_interact) { std::vector<std::pair<V3, double>> bs; for (auto& c : S->cells()) { V3 m; int k = 0; for (auto& n : cell_tester::nodes(*c)) if (n.is_used()) { m += V3(n.pos()); k++; } if (!k) continue; m = m / (double)k; double rr = 0; for (auto& n : cell_tester::nodes(*c)) if (n.is_used()) rr = std::max(rr, (V3(n.pos()) - m).norm()); bs.push_back({m, rr}); }
+                        double reach = 2 * std::max(pl.get("cut_adh", 0), pl.get("cut_rep", 0)) + pl.get("lmin", 0); for (size_t a = 0; a < bs.size(); a++) for (size_t b = a + 1; b < bs.size(); b++) if ((bs[a].first - bs[b].first).norm() < bs[a].second + bs[b].second + reach) may_interact = true; }
                     if (monitors) {
                         after_iteration(before_ids);
                         check_refs("end of iteration", false, false);
@@ -283,19 +286,20 @@ struct W1 {
 RunResult run_w1(const Plan& pl) {
     RunResult res; sim::RunConfig cfg = config_from(pl); cfg.step_budget = 600000000ull;
     sim::clear_faults(); sim::begin_run(cfg);
-    std::vector<uint64_t> hashA; uint64_t nA = 0;
+    std::vector<uint64_t> hashA; uint64_t nA = 0; bool interactA = false;
     {
         W1 w(pl, res, true);
         try { w.execute(); } catch (std::exception& e) { res.fail("C10", "harness.unexpected_exception", e.what()); }
         sim::set_phase_cb(nullptr); sim::set_region_cb(nullptr);
-        hashA = w.iter_hash; nA = w.iters_done;
+        hashA = w.iter_hash; nA = w.iters_done; interactA = w.may_interact;
     }
     res.st = sim::end_run();
     if (res.st.escaped_exception) res.fail("C15", "region.escaped_exception", "an exception left the body of a parallel region (std::terminate under libgomp)");
     Fnv log; for (auto h : hashA) log.add(h); res.fingerprint = log.h;
     res.nontrivial = nA >= 3;
     // C15(a): the same plan on a team of one, run to completion in order, must give the same trajectory
-    if (pl.geti("diff", 0) && res.viol.empty() && (pl.geti("team", 1) > 1)) {
+    if (pl.geti("diff", 0) && interactA) res.probes.hit("c15a_premise_cells_within_reach_skipped");     // C15(a) speaks of cells that do not interact
+    if (pl.geti("diff", 0) && !interactA && res.viol.empty() && (pl.geti("team", 1) > 1)) {
         Plan ref = pl; ref.p["team"] = 1; ref.p["strategy"] = 0;
         RunResult r2; sim::RunConfig c2 = config_from(ref); c2.step_budget = cfg.step_budget; sim::begin_run(c2);
         std::vector<uint64_t> hashB;
@@ -319,8 +323,9 @@ void place_cells(Plan& pl, sim::Rng& r, int n, int layout, double R, double cuto
             for (int tries = 0; tries < 50; tries++) {
                 int j = (int)r.below(k); V3 dir = random_unit(r); double gap;
                 if (layout == 0) gap = cutoff * r.uni(4, 10); else if (layout == 1) gap = cutoff * r.uni(0.1, 0.9); else gap = -R * r.uni(0.05, 0.3);
-                c = ctr[j] + dir * (rad[j] + rk + gap);
-                bool ok = true; for (int q = 0; q < k; q++) if (q != j) { double dmin = (layout == 0) ? rad[q] + rk + 4 * cutoff : rad[q] + rk + (layout == 1 ? 0.05 * cutoff : -0.35 * R); if ((c - ctr[q]).norm() < dmin) ok = false; }
+                double ext = layout == 0 ? 1.7 : 1.0;   // layout 0 promises separated cells: the generator shapes reach up to 1.6 radii
+                c = ctr[j] + dir * (ext * (rad[j] + rk) + gap);
+                bool ok = true; for (int q = 0; q < k; q++) if (q != j) { double dmin = (layout == 0) ? 1.7 * (rad[q] + rk) + 4 * cutoff : rad[q] + rk + (layout == 1 ? 0.05 * cutoff : -0.35 * R); if ((c - ctr[q]).norm() < dmin) ok = false; }
                 if (ok) break;
             }
         }
